@@ -152,7 +152,7 @@ def _forceband(shard):
                 out["failures"].append(fw.fail(f"forceband/raises/{shard['sched']}", f"force_target_nf={target} with band=({lo},{hi}) raised {e} although the unrestricted forced analysis succeeds", case))
                 continue
             bp, br = ana.plan_fields(b), ana.raw_fields(b)
-            prob = [k for k in ana.PLANF if not np.array_equal(bp[k], pf[k][mask])]
+            prob = [k for k in ana.PLANF if np.asarray(bp[k]).shape != np.asarray(pf[k][mask]).shape or not np.allclose(np.asarray(bp[k], dtype=float), np.asarray(pf[k][mask], dtype=float), rtol=1e-13, atol=0)]
             prob += [k for k in ana.RAW if br[k].shape != rf[k][mask].shape or not np.allclose(br[k], rf[k][mask], rtol=1e-12, atol=0)]
             if prob:
                 out["failures"].append(fw.fail(f"forceband/{shard['sched']}/{'+'.join(prob[:4])}", f"force_target_nf={target}, band=({lo},{hi}): banded analysis has {len(bp['f'])} bins, the unrestricted one has {int(mask.sum())} in that band; fields {prob} differ", case))
@@ -305,7 +305,9 @@ def _one(case, full=True, light_single=False):
             bp = ana.plan_fields(pl)
             prob = []
             for k in ana.PLANF:
-                if not np.array_equal(bp[k], pf[k][mask]):
+                a_, b_ = np.asarray(bp[k]), np.asarray(pf[k][mask])
+                ok_ = a_.shape == b_.shape and (np.array_equal(a_, b_) if a_.dtype.kind in "iu" else np.allclose(a_, b_, rtol=1e-13, atol=0))
+                if not ok_:
                     prob.append(k)
             want = [d for d, m in zip(pf["D"], mask) if m]
             if len(bp["D"]) != len(want) or any(not np.array_equal(a, b) for a, b in zip(bp["D"], want)):
